@@ -7,7 +7,7 @@ From FlacWriters Require Import Params_proofs.
 From FlacReaders Require Readers Spec Ser RNum Seek.
 From FlacWriters Require Import Lists_proofs Writers_proofs.
 From FlacWriters Require Import Bytes_proofs Cross_proofs.
-From FlacE2E Require Import Bridge E2E SampleE2E Success ChannelE2E ByteE2E ByteSuccess ChannelSuccess ReadBridge ReadersE2E InterruptedE2E SeekE2E SeekReadE2E Transfer DecodedFile DamagedFile InterruptedBytes InterruptedChannels OutputBound.
+From FlacE2E Require Import Bridge E2E SampleE2E Success ChannelE2E ByteE2E ByteSuccess ChannelSuccess ReadBridge ReadersE2E InterruptedE2E SeekE2E SeekReadE2E Transfer DecodedFile DamagedFile InterruptedBytes InterruptedChannels OutputBound NoPanicFile.
 Import ListNotations.
 Open Scope N_scope.
 
@@ -619,6 +619,25 @@ Theorem C04_stream_output_bounded : forall file si frames en,
   2 * N.of_nat (length (concat frames)) <= 524280 * N.of_nat (length file).
 Proof. exact stream_output_bounded. Qed.
 
+(* C04 composed with the reader front-ends, for EVERY byte string (shorter than 2^48 bytes): the blocks the stream decoder
+   model hands out before it ends, followed by any number of failing frames, form a stream on which no seek-free history
+   of the sample, byte or channel reader model panics *)
+Theorem C04_any_file_readers_never_panic : forall file si frames en,
+  CS.dec_stream file = Some (si, frames, en) -> 1 <= A.si_channels si ->
+  N.of_nat (length file) < 2 ^ 48 ->
+  exists blocks, frames = map CS.interleave_frame blocks /\
+    forall (F : R.file) tail,
+      R.f_slots F = map R.SFrame blocks ++ tail -> all_bad tail -> R.f_channels F = A.si_channels si ->
+      (forall ops, RS.no_sseek ops -> Forall FlacReaders.Damaged.s_consume_ok (snd (FlacReaders.Seek.sample_run F ops)) ->
+         Forall (fun x => forall k, snd x <> R.OPanic k) (snd (FlacReaders.Seek.sample_run F ops))) /\
+      (forall ops, 1 <= Ser.bytes_per_sample (R.f_bps F) <= 4 ->
+         RS.no_bseek ops -> Forall FlacReaders.Damaged.b_consume_ok (snd (FlacReaders.Seek.byte_run F ops)) ->
+         Forall (fun x => forall k, snd x <> R.OPanic k) (snd (FlacReaders.Seek.byte_run F ops))) /\
+      (forall ops, R.f_rev F = R.Repaired ->
+         RS.no_cseek ops -> Forall FlacReaders.Damaged.c_consume_ok (snd (FlacReaders.Seek.chan_run F ops)) ->
+         Forall (fun x => forall k, snd x <> R.OPanic k) (snd (FlacReaders.Seek.chan_run F ops))).
+Proof. exact any_file_readers_never_panic. Qed.
+
 (* C05 + C07 for damaged files — EVERY byte string on which the stream decoder model decodes some frames and then fails
    (any error): over the abstract stream "the blocks decoded so far, then a frame that fails" (whatever the failed decode
    left in the frame buffer, whatever follows), what ANY seek-free history of the sample reader model hands out or shows
@@ -741,6 +760,7 @@ Print Assumptions C01_end_to_end_samples.
 Print Assumptions C14_byte_writer_interrupted.
 Print Assumptions C14_channel_writer_interrupted.
 Print Assumptions C04_stream_output_bounded.
+Print Assumptions C04_any_file_readers_never_panic.
 Print Assumptions C05_damaged_file_is_read.
 Print Assumptions C05_damaged_file_is_read_bytes_channels.
 Print Assumptions C01_end_to_end_encoder.
